@@ -76,3 +76,26 @@ Definition chain_idle (N : net) : bool := match pend N with PIdle => true | _ =>
 (** the protocol monitor over the sink's view (what the tree check runs on the crate's trace) *)
 Definition chain_viols (N : net) : list vkind :=
   rev (viols (mon_trace (chain_params false) (chain_trace N))).
+
+(** ** Trees (Tree.v, TreePrograms.v): the same for a tree of operators given by its nodes (children
+    before parents, the root last) and its edges *)
+
+From CB Require Import Tree TreePrograms.
+
+Definition tree_net (sps : list spec) : tnet := tnet0 (map (node_of_spec false) sps).
+
+Definition tree_step (es : list edge) (root fuel : nat) (N : tnet) (m : move) : tnet * bool :=
+  let w := wiring_of es in
+  let mv := NEnv root m in
+  if tnet_enabled w N mv then (tsettle w fuel (tnet_step w N mv), true) else (N, false).
+
+Definition tree_trace (root : nat) (N : tnet) : list event :=
+  match nth_error (tnodes N) root with
+  | Some n => sink_view [] (ntrace n)
+  | None => []
+  end.
+
+Definition tree_viols (root : nat) (N : tnet) : list vkind :=
+  rev (viols (mon_trace (chain_params false) (tree_trace root N))).
+
+Definition tree_edges_ok (es : list edge) (len : nat) : bool := edges_okb es len.
